@@ -130,6 +130,67 @@ func layoutWire(d ldoc, max int) string {
 	return "d=" + strings.Join(pages, "/")
 }
 
+// dumpLayoutMeta: <idx>,<hex SectionTitle>,<HeadingLevel>,<Level>,<ElementTypes hex+hex…|~>,<HasList>,<CharCount>,<WordCount>,<EstimatedTokens>,<hex TextWithContext>
+// joined by ';' ("none" if there is no chunk); HasTable / HasImage must be false (a section holds headings, paragraphs and lists).
+func dumpLayoutMeta(chunks []*rag.Chunk) string {
+	if len(chunks) == 0 {
+		return "none"
+	}
+	parts := make([]string, len(chunks))
+	for i, ch := range chunks {
+		m := ch.Metadata
+		tys := "~"
+		if len(m.ElementTypes) > 0 {
+			hs := make([]string, len(m.ElementTypes))
+			for j, t := range m.ElementTypes {
+				hs[j] = hx.HexS(t)
+			}
+			tys = strings.Join(hs, "+")
+		}
+		hl := 0
+		if m.HasList {
+			hl = 1
+		}
+		if m.HasTable || m.HasImage {
+			hl = 9
+		}
+		parts[i] = fmt.Sprintf("%d,%s,%d,%d,%s,%d,%d,%d,%d,%s", m.ChunkIndex, hx.HexS(m.SectionTitle), m.HeadingLevel, int(m.Level), tys, hl,
+			m.CharCount, m.WordCount, m.EstimatedTokens, hx.HexS(ch.TextWithContext))
+	}
+	return strings.Join(parts, ";")
+}
+
+func countLayoutMeta(c *hx.Ctx, chunks []*rag.Chunk) {
+	seen := map[string]bool{}
+	for _, ch := range chunks {
+		seen[fmt.Sprintf("layout/metadata/level=%s", ch.Metadata.Level)] = true
+		if ch.Metadata.HasList {
+			seen["layout/metadata/some-chunk-has-list"] = true
+		}
+		if len(ch.Metadata.ElementTypes) == 0 {
+			seen["layout/metadata/some-chunk-without-element-type"] = true
+		}
+		if len(ch.Metadata.ElementTypes) > 1 {
+			seen["layout/metadata/some-chunk-with-several-element-types"] = true
+		}
+	}
+	for k := range seen {
+		c.Count(k)
+	}
+}
+
+// hasIntro: some paragraph directly before a list (in the order the chunker reads them) is a list introduction.
+func hasIntro(d ldoc) bool {
+	for _, lp := range d.Pages {
+		for _, e := range lp.Elems {
+			if e.Kind == "p" && isIntro(e.Text) {
+				return true
+			}
+		}
+	}
+	return false
+}
+
 // canonical is the document in the only order the layout-based chunker's input
 // type defines: per page headings, then paragraphs, then lists (tables and images
 // are not part of a PageLayout); pages are numbered as the model numbers them.
@@ -154,6 +215,7 @@ func canonical(d ldoc) ldoc {
 func runLayout(c *hx.Ctx, k kase, d ldoc, lc layCfg, tie bool) {
 	var vs []cview
 	var errS string
+	var lchunks []*rag.Chunk
 	p := hx.Safe(func() {
 		var ch *rag.Chunker
 		if lc.Ctor == 0 {
@@ -167,6 +229,7 @@ func runLayout(c *hx.Ctx, k kase, d ldoc, lc layCfg, tie bool) {
 			return
 		}
 		vs = viewsOf(res.Chunks)
+		lchunks = res.Chunks
 	})
 	what := func() string {
 		return fmt.Sprintf("layout-based chunker, config %s (max %d, min %d, minHeadingLevel %d); %s", lc.Name, lc.CC.MaxChunkSize, lc.CC.MinChunkSize, lc.CC.MinHeadingLevel, describe(d))
@@ -185,6 +248,24 @@ func runLayout(c *hx.Ctx, k kase, d ldoc, lc layCfg, tie bool) {
 		if over := overMax(d, lc.CC.MaxChunkSize); over || k.Index%4 == 0 {
 			c.Op(fmt.Sprintf("c12.lchunks %d %d %d %d %s %s %s %s", lc.CC.MaxChunkSize, lc.CC.MinChunkSize, lc.CC.MinHeadingLevel, keep,
 				hx.HexS(lc.CC.IDPrefix), hx.HexS(d.Title), lowTable(docTexts(d)), layoutWireS(d)), dumpChunks(vs))
+			// … and with isListIntro computed by the model as well (Model/ChunkIntro.lean): the '!' marks are ignored
+			// (sent when some paragraph is an introduction, and for one in four of the others: there the
+			// model only has to say "no" for every paragraph, which c12.intro covers)
+			if hasIntro(d) || k.Index%4 == 1 {
+				c.Op(fmt.Sprintf("c12.lchunki %d %d %d %d %s %s %s %s", lc.CC.MaxChunkSize, lc.CC.MinChunkSize, lc.CC.MinHeadingLevel, keep,
+					hx.HexS(lc.CC.IDPrefix), hx.HexS(d.Title), lowTable(docTexts(d)), layoutWireS(d)), dumpChunks(vs))
+			}
+			// … and every other field of ChunkMetadata (Model/ChunkLayoutX.lean), for two tied cases in three
+			if k.Index%3 != 2 {
+				c.Op(fmt.Sprintf("c12.lchunkx %d %d %d %d %s %s %s %s", lc.CC.MaxChunkSize, lc.CC.MinChunkSize, lc.CC.MinHeadingLevel, keep,
+					hx.HexS(lc.CC.IDPrefix), hx.HexS(d.Title), lowTable(docTexts(d)), layoutWireS(d)), dumpLayoutMeta(lchunks))
+				countLayoutMeta(c, lchunks)
+			}
+			if hasIntro(d) {
+				c.Count("layout/intro-by-model/some-paragraph-introduces-a-list")
+			} else {
+				c.Count("layout/intro-by-model/no-introduction")
+			}
 			if lc.CC.PreserveListCoherence && k.Index%2 == 0 {
 				// … and with FindAtomicBlocks / GetAtomicBlockAt as the code has them (Model/ChunkAtomic.lean)
 				c.Op(fmt.Sprintf("c12.lchunka %d %d %d %d %s %s %s %s", lc.CC.MaxChunkSize, lc.CC.MinChunkSize, lc.CC.MinHeadingLevel, keep,
